@@ -352,11 +352,11 @@ def ns_whole_obs(tier, which):
     grid = [(3, 3), (4, 4)] if q else [(3, 3), (4, 4), (4, 5), (5, 4)]
     out = []
     if "feasible" in which:
-        out.append(dict(name="ns-whole-feasible", pkg="internal/phase2", func="Harness_NS_Feasible", consts={}, cubes=dag_cubes(grid), enctimeout=90, qtimeout=60, loop=64,
+        out.append(dict(name="ns-whole-feasible", pkg="internal/phase2", func="Harness_NS_Feasible", consts={}, cubes=dag_cubes(grid), enctimeout=90, qtimeout=60, loop=64, chunk=150,
                         bounds="whole real execNetworkSimplex (feasible tree, pivots, normalize, vbalance) on all canonical connected DAGs with (N,M) in %s (cubes); symbolic: the "
                                "minimum length of every edge in 0..2 (stands in for the slacks of larger graphs; the NS positioner runs the same code with arbitrary lengths)" % grid))
     if "optimal" in which:
-        out.append(dict(name="ns-whole-optimal", pkg="internal/phase2", func="Harness_NS_Optimal", consts={}, cubes=dag_cubes(grid), enctimeout=90, qtimeout=60, loop=64,
+        out.append(dict(name="ns-whole-optimal", pkg="internal/phase2", func="Harness_NS_Optimal", consts={}, cubes=dag_cubes(grid), enctimeout=90, qtimeout=60, loop=64, chunk=150,
                         validate_cubes=0,
                         bounds="whole real execNetworkSimplex without balancing, iteration budget beyond the engine's loop bound (capped runs are cut, not judged), same cubes; "
                                "symbolic: minimum lengths 0..2 and an arbitrary alternative layering alt[] - the solver searches for a cheaper feasible one"))
